@@ -161,6 +161,23 @@ func deepDiff(a, b reflect.Value, path string, depth int) string {
 
 func diffKey(path string) string { return reIndex.ReplaceAllString(path, "[]") }
 
+// causeSuffix classifies the input bytes with the independent lenient reader: ":non-der-input" when the input
+// (including what it carries inside OCTET/BIT STRINGs) contains a non-minimal length, a non-minimal INTEGER or
+// another non-DER form, "" when it is canonical DER as far as the reader can tell. The witness key carries the
+// class so that a recorded finding about non-DER inputs cannot hide a disagreement on a canonical one.
+func causeSuffix(raw []byte) (suffix, what string) {
+	nodes, err := der.ParseAll(raw)
+	if err != nil {
+		return ":non-der-input", "not parseable as TLVs by the independent reader"
+	}
+	for _, n := range nodes {
+		if d := n.NonDER(); d != "" {
+			return ":non-der-input", d
+		}
+	}
+	return "", ""
+}
+
 type c20Runner struct {
 	c *core.Ctx
 }
@@ -213,11 +230,13 @@ func (r *c20Runner) certificate(raw []byte, desc, id string) {
 	}
 	c.Nontrivial("cert", raw)
 	if ep != nil {
-		c.Violation("permissive-rejects-strict-accepted:x509.ParseCertificate", "strict mode accepts, permissive mode fails with: "+errStr(ep)+"\nhow: "+desc, id, in)
+		sfx, what := causeSuffix(raw)
+		c.Violation("permissive-rejects-strict-accepted:x509.ParseCertificate"+sfx, "strict mode accepts, permissive mode fails with: "+errStr(ep)+"\nhow: "+desc+"\ninput class: "+what, id, in)
 		return
 	}
 	if d := deepDiff(reflect.ValueOf(cs), reflect.ValueOf(cp), "Certificate", 0); d != "" {
-		c.Violation("permissive-differs:x509.ParseCertificate:"+diffKey(d), "strict and permissive results differ at "+d+"\nhow: "+desc, id, in)
+		sfx, what := causeSuffix(raw)
+		c.Violation("permissive-differs:x509.ParseCertificate:"+diffKey(d)+sfx, "strict and permissive results differ at "+d+"\nhow: "+desc+"\ninput class: "+what, id, in)
 		return
 	}
 	// JSON view, each marshalled in the mode that produced it
@@ -236,7 +255,8 @@ func (r *c20Runner) certificate(raw []byte, desc, id string) {
 	}
 	if (e1 == nil) != (e2 == nil) || !bytes.Equal(js, jp) {
 		d := firstDiff(js, jp)
-		c.Violation("permissive-differs:x509.ParseCertificate:json", fmt.Sprintf("json.Marshal of the strict and permissive results differ at byte %d (err %v / %v):\n…%s\n…%s\nhow: %s", d, e1, e2, ctxAt(js, d), ctxAt(jp, d), desc), id, in)
+		sfx, _ := causeSuffix(raw)
+		c.Violation("permissive-differs:x509.ParseCertificate:json"+sfx, fmt.Sprintf("json.Marshal of the strict and permissive results differ at byte %d (err %v / %v):\n…%s\n…%s\nhow: %s", d, e1, e2, ctxAt(js, d), ctxAt(jp, d), desc), id, in)
 	}
 	c.Count("certificates_compared", 1)
 }
@@ -280,15 +300,18 @@ func (r *c20Runner) unmarshalAll(raw []byte, desc, id string, only string) {
 		c.Count("strict_accepted_asn1:"+t.name, 1)
 		in := c20Input{Target: "asn1.Unmarshal(" + t.name + ")", Hex: hex.EncodeToString(raw), Desc: desc}
 		if ep != nil {
-			c.Violation("permissive-rejects-strict-accepted:asn1.Unmarshal("+t.name+")", "strict mode accepts, permissive mode fails with: "+errStr(ep)+"\nhow: "+desc, id, in)
+			sfx, _ := causeSuffix(raw)
+			c.Violation("permissive-rejects-strict-accepted:asn1.Unmarshal("+t.name+")"+sfx, "strict mode accepts, permissive mode fails with: "+errStr(ep)+"\nhow: "+desc, id, in)
 			continue
 		}
 		if len(rs) != len(rp) {
-			c.Violation("permissive-consumes-differently:asn1.Unmarshal("+t.name+")", fmt.Sprintf("strict leaves %d bytes, permissive leaves %d bytes\nhow: %s", len(rs), len(rp), desc), id, in)
+			sfx, _ := causeSuffix(raw)
+			c.Violation("permissive-consumes-differently:asn1.Unmarshal("+t.name+")"+sfx, fmt.Sprintf("strict leaves %d bytes, permissive leaves %d bytes\nhow: %s", len(rs), len(rp), desc), id, in)
 			continue
 		}
 		if d := deepDiff(reflect.ValueOf(vs), reflect.ValueOf(vp), t.name, 0); d != "" {
-			c.Violation("permissive-differs:asn1.Unmarshal("+t.name+"):"+diffKey(d), "strict and permissive values differ at "+d+"\nhow: "+desc, id, in)
+			sfx, _ := causeSuffix(raw)
+			c.Violation("permissive-differs:asn1.Unmarshal("+t.name+"):"+diffKey(d)+sfx, "strict and permissive values differ at "+d+"\nhow: "+desc, id, in)
 		}
 	}
 }
